@@ -123,6 +123,14 @@ def check_diff(res):
     if "error" in res:
         return "skip"        # C04/C17 decide whether a construction may raise
     if not res["conv"]:
+        # the solver gave up on the schedule as a whole. When every one of its ages converges on its own — the largest of them over the very
+        # same internal grid — the schedule (its order, its repeats) is what broke the run: the rows are then not "the same in any order"
+        # (the flag and the warning are C17's business; they do not make the reported rows right). The tightened twin lifts the step
+        # limit, so only the library's own settings can show this.
+        rows = res["rows"]
+        if not res["tight"] and rows and all("single_error" not in r and r["conv"] for r in rows):
+            return {"clause": "a schedule whose ages each converge alone converges, and reports the same rows, in any order",
+                    "tout": res["cfg"]["tout"], "observed": "converged=False for the schedule, True for each age alone"}
         return "skip"
     cfg = res["cfg"]
     tight = res["tight"]
